@@ -49,6 +49,9 @@ pub enum Op {
     NewEpoch { late_ns: u64, caller: u8 },
     ForwardFeesBy { caller: u8 },
     Claim { user: u8 },
+    /// the distributor's owner raises the grace period by 1 or 2 (an already expired epoch can come
+    /// back into the window: its remainder must not be rolled over a second time)
+    IncreaseGrace { by: u8 },
 }
 
 #[derive(Clone, Debug, Serialize, Deserialize)]
@@ -87,6 +90,7 @@ fn op() -> BoxedStrategy<Op> {
         7 => (prop_oneof![3 => Just(0u64), 1 => 0u64..DAY_NS], 0u8..3).prop_map(|(late_ns, caller)| Op::NewEpoch { late_ns, caller }),
         1 => (0u8..5).prop_map(|caller| Op::ForwardFeesBy { caller }),
         1 => (0u8..3).prop_map(|user| Op::Claim { user }),
+        1 => (1u8..3).prop_map(|by| Op::IncreaseGrace { by }),
     ]
     .boxed()
 }
@@ -411,7 +415,7 @@ impl Check for FeePipeline {
         "fee_pipeline_new_epoch"
     }
     fn rule(&self) -> &'static str {
-        "full hub: 3 constant-product pairs (uwhale/uusdc, uwhale/cw20, uusdc/uatom), 3 vaults (uwhale, uusdc, cw20), pool router with generated initial routes to the distribution asset (1-hop, 1-hop cw20, 2-hop), collector, distributor (grace 1..4), lair; up to 40/100 operations {swaps and tiny swaps (fee states 0 / <= 1000 / above), router flash loans, take-rate changes in {inactive, 0, 1e-18, 0.1, ~1, random} with/without DAO address, add/remove route, disable swaps on a pair (simulation passes, execution fails), de-register a pair, drain a pair's liquidity, donations to the collector, ForwardFees by non-distributors, claims, NewEpoch on time or late}. Oracle per NewEpoch: failure => world snapshot unchanged; success => every registered pair's pending entries above 1000 and every vault's pending fees are 0 and what left them arrived in the collector, each non-distribution asset in the collector is either untouched (+collected) or fully swapped (0), the pool router holds nothing, DAO delta == floor(rate * (DAO delta + distributor inflow)) iff the take rate is active (and TakeRateHistory records it) else 0, distributor inflow == new epoch total - rolled-over remainder, the collector's distribution-asset balance is 0 afterwards. ForwardFees from anyone but the distributor is rejected. Non-trivial: a successful NewEpoch with non-zero collected fees from >= 1 pair and >= 1 vault."
+        "full hub: 3 constant-product pairs (uwhale/uusdc, uwhale/cw20, uusdc/uatom), 3 vaults (uwhale, uusdc, cw20), pool router with generated initial routes to the distribution asset (1-hop, 1-hop cw20, 2-hop), collector, distributor (grace 1..4), lair; up to 40/100 operations {swaps and tiny swaps (fee states 0 / <= 1000 / above), router flash loans, take-rate changes in {inactive, 0, 1e-18, 0.1, ~1, random} with/without DAO address, add/remove route, disable swaps on a pair (simulation passes, execution fails), de-register a pair, drain a pair's liquidity, donations to the collector, ForwardFees by non-distributors, claims, grace-period increases, NewEpoch on time or late}. Oracle per NewEpoch: failure => world snapshot unchanged; success => every registered pair's pending entries above 1000 and every vault's pending fees are 0 and what left them arrived in the collector, each non-distribution asset in the collector is either untouched (+collected) or fully swapped (0), the pool router holds nothing, DAO delta == floor(rate * (DAO delta + distributor inflow)) iff the take rate is active (and TakeRateHistory records it) else 0, distributor inflow == new epoch total - rolled-over remainder, the collector's distribution-asset balance is 0 afterwards. ForwardFees from anyone but the distributor is rejected. Non-trivial: a successful NewEpoch with non-zero collected fees from >= 1 pair and >= 1 vault."
     }
     fn strategy(&self, tier: Tier) -> BoxedStrategy<Case> {
         let max_ops = tier.pick(40usize, 100usize);
@@ -588,6 +592,24 @@ impl Check for FeePipeline {
                     let who = h.w.users[(*user % 3) as usize].clone();
                     let d = h.dist.clone();
                     let _ = h.w.exec(&who, &d, &fd::ExecuteMsg::Claim {}, &[]);
+                }
+                Op::IncreaseGrace { by } => {
+                    let owner = h.w.owner.clone();
+                    let d = h.dist.clone();
+                    let cur: fd::Config = h.w.query(&d, &fd::QueryMsg::Config {}).map_err(Fail::new)?;
+                    let to = cur.grace_period.u64() + *by as u64;
+                    if h
+                        .w
+                        .exec(
+                            &owner,
+                            &d,
+                            &fd::ExecuteMsg::UpdateConfig { owner: None, bonding_contract_addr: None, fee_collector_addr: None, grace_period: Some(Uint64::new(to)), distribution_asset: None, epoch_config: None },
+                            &[],
+                        )
+                        .is_ok()
+                    {
+                        rec.class("grace_increased");
+                    }
                 }
                 Op::ForwardFeesBy { caller } => {
                     let who = match *caller {
